@@ -34,6 +34,9 @@ type cfg struct {
 	// Resize: the alphabet has an event that changes remedy r1's window size (W <-> 2W), as a
 	// policy reload between two requests does
 	Resize bool
+	// Realloc: the alphabet has an event that changes remedy r1's allocation table (the shares
+	// of groups A and B swap: 50/25 <-> 25/50) under the same remedy name, as a policy reload does
+	Realloc bool
 	// Prefill: the history starts after this many other groups of remedy r2 have each sent a
 	// request (a start state with many tracked keys); the alphabet then has a request of a
 	// group never seen before and a clock step of 61 minutes
@@ -44,6 +47,9 @@ func (c cfg) String() string {
 	s := fmt.Sprintf("allowed=%d W=%ds alloc=%s", c.Allowed, c.W, c.Alloc)
 	if c.Resize {
 		s += " +window-size-changes"
+	}
+	if c.Realloc {
+		s += " +allocation-table-changes"
 	}
 	if c.Prefill > 0 {
 		s += fmt.Sprintf(" start=%d-other-groups-tracked", c.Prefill)
@@ -74,6 +80,9 @@ func (e event) String() string {
 	}
 	if e.kind == "resize" {
 		return "resize(r1: W<->2W)"
+	}
+	if e.kind == "realloc" {
+		return "realloc(r1: shares of A and B swap)"
 	}
 	if e.kind == "burst" {
 		return "burst(r2: as many new groups again as the start state tracks)"
@@ -106,6 +115,15 @@ func alphabet(c cfg) []event {
 			}
 		}
 		ev = append(keep, event{kind: "resize"})
+	}
+	if c.Realloc {
+		var keep []event
+		for _, e := range ev {
+			if e.group != "a" && e.group != "" {
+				keep = append(keep, e)
+			}
+		}
+		ev = append(keep, event{kind: "realloc"})
 	}
 	for _, t := range []string{"boundary", "1ns", "half", "W"} {
 		ev = append(ev, event{kind: "tick", tick: t})
@@ -152,6 +170,7 @@ type model struct {
 	resumeAt map[string]time.Time // per (remedy, group): end of its transition (see Apply)
 	since    map[string][]time.Time
 	fresh    int
+	swapped  bool // r1's allocation table currently gives A 25% and B 50%
 }
 
 func newModel(c cfg) *model {
@@ -216,6 +235,18 @@ func (m *model) apply(e event) string {
 		time.Sleep(d)
 		return ""
 	}
+	if e.kind == "realloc" {
+		// a reload builds a new remedy object with the same name and another table
+		m.swapped = !m.swapped
+		a, b := float64(50), float64(25)
+		if m.swapped {
+			a, b = 25, 50
+		}
+		nr := remedy(m.c, 0)
+		nr.Config.StrategyBasedThrottling.GroupQuotaAllocation.Groups = []sharedConfig.QuotaAllocation{{GroupHeaderValue: "A", AllocationPercentage: a}, {GroupHeaderValue: "B", AllocationPercentage: b}}
+		m.rem[0] = nr
+		return ""
+	}
 	if e.kind == "resize" {
 		if m.w0 == m.W() {
 			m.w0 = 2 * m.W()
@@ -250,11 +281,15 @@ func (m *model) apply(e event) string {
 	allowed := m.c.Allowed + int64(e.remedy)
 	var lim int64
 	counted := true
+	share := pct[e.group]
+	if m.swapped && e.remedy == 0 && share != 0 {
+		share = 75 - share // the table in force: the limit of a request is the share configured now
+	}
 	switch {
 	case m.c.Alloc == "none":
 		lim = allowed
-	case pct[e.group] != 0:
-		lim = ceilPct(allowed, pct[e.group])
+	case share != 0:
+		lim = ceilPct(allowed, share)
 	case m.c.Alloc == "allow":
 		counted = false
 		if blocked {
@@ -354,6 +389,9 @@ func (m *model) Key() string {
 		sort.Strings(ps)
 		rz += "," + strings.Join(ps, ",")
 	}
+	if m.c.Realloc {
+		rz += fmt.Sprintf("|swapped=%v", m.swapped)
+	}
 	key := fmt.Sprintf("phase=%d|%s|%s%s", now.UnixNano()%int64(2*m.W()), limit.VerifDump(m.state, now), strings.Join(rs, ","), rz)
 	if m.c.Prefill > 0 {
 		key = collapseOthers(key)
@@ -396,6 +434,14 @@ func configs() []cfg {
 			}
 		}
 	}
+	// allocation-table changes between requests
+	for _, a := range []int64{3, 4} {
+		for _, w := range []int{1, 2} {
+			for _, al := range []string{"block", "default25"} {
+				cs = append(cs, cfg{Allowed: a, W: w, Alloc: al, Realloc: true})
+			}
+		}
+	}
 	// a non-initial start state: 12000 other groups are tracked; a two-hour window
 	cs = append(cs, cfg{Allowed: 2, W: 7200, Alloc: "default25", Prefill: 12000})
 	// a window length that does not divide a day (grid origin matters)
@@ -415,8 +461,8 @@ func TestCheck(t *testing.T) {
 		replayFile(t, r, f)
 		return
 	}
-	r.Rule = fmt.Sprintf("explicit-state BFS to depth %d over histories of {req(remedy r1|r2, group A|B|Z|absent), tick(to the next grid boundary exactly | 1ns | W/2 | W)} for %d configurations (allowed 1-3, W 1, 2 and 7 s, allocation none / table with default allow|block|use_default_allocation); every transition runs the real plugin (fresh instance + replay) in a virtual-time bubble; plus the throttling remedy at the end of every policy-mode chain of <=2 authentication remedies through the real runner; plus the exhaustive allocation table allowed 1..300 x pct 1..100 and all schedules (<=2 preemptions) of 3 concurrent first requests on one key; distinct = state keys (implementation dump + reference + phase)", depth, len(cs))
-	r.Assume("window-size changes (8 further configurations: r1's window toggles between W and 2W): per (remedy, group), from the change until the end of the aligned window of the new size that contains its first request after the change, only the bound is asserted (on the requests handled since the change); after that full exactness", "virtual time via testing/synctest; the plugin's clock is clock.RealClock inside the bubble")
+	r.Rule = fmt.Sprintf("explicit-state BFS to depth %d over histories of {req(remedy r1|r2, group A|B|Z|absent), tick(to the next grid boundary exactly | 1ns | W/2 | W)} for %d configurations (allowed 1-3, W 1, 2 and 7 s, allocation none / table with default allow|block|use_default_allocation); every transition runs the real plugin (fresh instance + replay) in a virtual-time bubble; plus the throttling remedy at the end of every policy-mode chain of <=2 authentication remedies through the real runner; plus every placement of throttling remedies named n1|n2|none on two endpoints and the global scope (27) given to the real validator, the accepted ones run through the real policy tree and dispatcher for all request histories <=4 over the three scopes against one reference counter per configured remedy; plus the exhaustive allocation table allowed 1..300 x pct 1..100 and all schedules (<=2 preemptions) of 3 concurrent first requests on one key; distinct = state keys (implementation dump + reference + phase)", depth, len(cs))
+	r.Assume("allocation-table changes (8 further configurations: the shares of groups A and B of r1 swap under the same remedy name): the limit of a request is the share configured when it is handled, what was counted stays counted", "window-size changes (8 further configurations: r1's window toggles between W and 2W): per (remedy, group), from the change until the end of the aligned window of the new size that contains its first request after the change, only the bound is asserted (on the requests handled since the change); after that full exactness", "virtual time via testing/synctest; the plugin's clock is clock.RealClock inside the bubble")
 	if r.Parallel(t, 16) {
 		r.Finish(t)
 		return
@@ -456,6 +502,9 @@ func TestCheck(t *testing.T) {
 	}
 	if sh, n := r.Shard(); sh == 1%n {
 		chainFamily(t, r)
+	}
+	if sh, n := r.Shard(); sh == 2%n {
+		namesFamily(t, r)
 	}
 	r.Add("traces_validated_against_impl", r.Counters["transitions"])
 	schedules(t, r)
